@@ -142,7 +142,7 @@ func cmdCheck(args []string) int {
 		return 2
 	}
 	loadS := time.Since(t0).Seconds()
-	eng := &Engine{P: P, opts: Options{MaxDecisions: 600, MaxSteps: 3000000, Verbose: *verbose, Tier: *tier, SolverTimeoutMs: 60000, Cross: true}}
+	eng := &Engine{P: P, opts: Options{MaxDecisions: 600, MaxSteps: 3000000, Verbose: *verbose, Tier: *tier, SolverTimeoutMs: 20000, Cross: true}}
 	if *tier == "thorough" {
 		eng.opts.MaxDecisions = 1500
 		eng.opts.SolverTimeoutMs = 300000
